@@ -209,7 +209,9 @@ fn exhaustive_circles(ctx: &mut Ctx) {
     ctx.note("exhaustive part: all 256 type bytes x 256 hit-sound bytes of a circle-shaped line in three contexts (first object, after a spinner, after a circle)");
 }
 
-const NUMS: &[&str] = &["0", "1", "256", "-5", "511.9", "131072", "131073", "-131072", "-131072.9", "1e3", "", "x", "NaN", "inf", "2147483647", "2147483648", "12.5", "+7", " 9 ", "-0", "-0.9", "0.99"];
+const NUMS: &[&str] = &["0", "1", "256", "-5", "511.9", "131072", "131073", "-131072", "-131072.9", "1e3", "", "x", "NaN", "inf", "2147483647", "2147483648", "12.5", "+7", " 9 ", "-0", "-0.9", "0.99",
+    // values on which single and double precision disagree after truncation / at the limit
+    "200.99999999", "0.99999999", "-0.99999999", "131071.999", "131072.001", "-131072.001", "131071.99", "16777217"];
 const INTS: &[&str] = &["0", "1", "2", "3", "4", "9", "-1", "100", "9000", "9001", "2147483647", "2147483648", "", "x", "1.5", " 2 ", "+3", "-2147483648"];
 
 fn bank(r: &mut Rng) -> String {
@@ -245,7 +247,7 @@ fn path_str(r: &mut Rng, x: i64, y: i64) -> String {
             }
             3 => {
                 p.push('|');
-                p.push_str(*r.pick(&["", "1", "1:", ":1", "a:b", "1:2:3", "131073:0", "1.7:2.2", "-131072:131072", " 3 : 4 ", "1e2:5"][..]));
+                p.push_str(*r.pick(&["", "1", "1:", ":1", "a:b", "1:2:3", "131073:0", "1.7:2.2", "-131072:131072", " 3 : 4 ", "1e2:5", "200.99999999:0.99999999", "131071.999:5", "5:131072.001", "-131072.001:0", "99.99999999:-0.99999999"][..]));
                 continue;
             }
             4 if i == 0 => {
@@ -256,6 +258,11 @@ fn path_str(r: &mut Rng, x: i64, y: i64) -> String {
             _ => {}
         }
         last = if collinear { (last.0 + 30, last.1 + 15) } else { (r.range(-50, 600), r.range(-50, 450)) };
+        if r.chance(1, 12) {
+            // fractional coordinates: truncated, in double precision for path points
+            p.push_str(&format!("|{}{}:{}{}", last.0, r.pick(&[".5", ".99999999", ".000001", ".9"]), last.1, r.pick(&[".25", ".99999999", ".9999999"])));
+            continue;
+        }
         p.push_str(&format!("|{}:{}", last.0, last.1));
     }
     p
